@@ -556,6 +556,40 @@ theorem initSolve_marks (E : Env) (st : RState) (u inp : Nat) (o : Nat) :
       · have h4 : o' ≠ o := fun e => h3 e.symm
         simp [h1, h3, h4]
 
+/-- `init_solve` allocates the in profile, and the out profile unless the unit has one already -/
+theorem initSolve_heap_n (E : Env) (st : RState) (u inp : Nat) :
+    (initSolve E st u inp).1.heap.n =
+      (preChain E st u inp).1.n + (if (st.uout u).isSome then 1 else 2) := by
+  unfold initSolve preChain
+  cases h : st.uout u <;> simp [Heap.alloc, Heap.setMarks]
+
+/-- the marks of the last pre-processor's output (of the handed-in profile if no processor ran) when `init_solve` is
+done -/
+def preOutMarks (E : Env) (st : RState) (u inp : Nat) : List Mark :=
+  (initSolve E st u inp).1.heap.marks (lastRet inp (initSolve E st u inp).2)
+
+/-- a chain whose factories all return nothing leaves heap and profile as they are -/
+theorem chain_all_none (E : Env) (w : Bool) (u : Nat) (fs : List Nat) (h : Heap) (cur : Nat)
+    (hn : ∀ f ∈ fs, E.fac f u = none) :
+    (chain E w u fs h cur).1 = h ∧ (chain E w u fs h cur).2.1 = cur := by
+  induction fs with
+  | nil => exact ⟨rfl, rfl⟩
+  | cons f fs ih =>
+    rw [chain_none E w u f fs h cur (hn f (by simp))]
+    exact ih (fun g hg => hn g (by simp [hg]))
+
+theorem ownStep_uout (st : RState) (u : Nat) : (ownStep st u).uout = st.uout := rfl
+theorem ownStep_uin (st : RState) (u : Nat) : (ownStep st u).uin = st.uin := rfl
+theorem ownStep_n (st : RState) (u : Nat) : (ownStep st u).heap.n = st.heap.n := rfl
+theorem ownStep_marks (st : RState) (u o : Nat) :
+    (ownStep st u).heap.marks o =
+      if o = (st.uout u).getD 0 then st.heap.marks o ++ [.own u] else st.heap.marks o := by
+  unfold ownStep
+  simp only [Heap.setMarks]
+  split
+  · next h => rw [h]
+  · rfl
+
 /-- the post-processor chain run by `solve`: it starts on a NEW object (index `st.heap.n`) that copies the marks of
 `unit.out_profile` -/
 def postChain (E : Env) (st : RState) (u : Nat) : Heap × Nat × List Ev :=
@@ -575,6 +609,10 @@ theorem solveLeaf_eq (E : Env) (st : RState) (u inp : Nat) :
       ((finishSolve E (ownStep (initSolve E st u inp).1 u) u).1,
        (finishSolve E (ownStep (initSolve E st u inp).1 u) u).2.1,
        .enter u inp :: (initSolve E st u inp).2 ++ .own u :: (finishSolve E (ownStep (initSolve E st u inp).1 u) u).2.2) := rfl
+
+theorem solveLeaf_uout (E : Env) (st : RState) (u inp : Nat) (x : Nat) :
+    (solveLeaf E st u inp).1.uout x = (initSolve E st u inp).1.uout x := by
+  rw [solveLeaf_eq, finishSolve_eq]; rfl
 
 theorem solveSubs_cons (E : Env) (c : Nat) (cs : List Nat) (st : RState) (cur : Nat) :
     solveSubs E (c :: cs) st cur =
